@@ -272,8 +272,29 @@ def run(ck):
                     ck.check(not mixed, "C09.R6", inst + ":no divisor multiplies the unnormalised amplitudes of both replicas", mixed[0][0] if mixed else asite,
                              "a divisor is exp(E(first replica) + E(second replica)): the product of both replicas' unnormalised probabilities overflows where each of them is still finite (the estimate is inf/inf = "
                              "NaN on half of the parameter range on which dividing replica by replica is exact)", key="C09.R6|SWAP|joint divisor")
-    # ------------------------------------------------------------------ R4 history independence (two-call protocol)
     from .history import check_history
+
+    # ------------------------------------------------------------------ R3 region forms: "every subset A of sites (... given as int / list / array / tensor)"
+    # the empty subset written as a tensor is torch.tensor([]) - a float32 tensor (torch's dtype for an empty list): every form
+    # of the same region gives the same estimator, the empty one the value of an exchange that exchanges nothing
+    swp = prog.cls("SWAP")
+    for form in ("empty list", "torch.tensor(empty list)"):
+        inst = "SWAP/empty region as %s" % form
+        with ck.guard("C09.R3", inst, asite):
+            def the(it, form=form):
+                s = make_state(it, "PositiveWaveFunction")
+                A = it.new_list([])
+                if form.startswith("torch"):
+                    A = it.ops.call_ext(it, "torch.tensor", [A], {}, None)
+                o = it.instantiate(swp, [A], {}, None)
+                return call(it, o, "apply", s, tens(it, "samples", ("B", "nv")))
+
+            ps_ = paths_of(prog, the, sticky=True, max_paths=12)
+            rets = [p for p in ps_ if p.outcome == "return"]
+            errs = [p for p in ps_ if p.outcome == "raise"]
+            ck.check(bool(rets) and not errs, "C09.R3", inst + ":evaluates", asite,
+                     "SWAP with the empty region given as %s does not evaluate: %s (the other spellings of the same region do)" % (form, [str(p.value)[:120] for p in errs][:1]),
+                     key="C09.R3|SWAP|empty region as a float tensor")
 
     for cls in api.STATES:
         def mk(it, cls=cls):
